@@ -4,6 +4,7 @@ import (
 	"fmt"
 	"strings"
 
+	"verif/gen"
 	"verif/jt"
 )
 
@@ -15,6 +16,13 @@ func C05() int {
 	}
 	defer s.Close()
 	items := CoreCorpus(g, pickN(c, 1800, 24000))
+	// a third of the lines also with ONE value shared by string leaves of all positional
+	// classes (an id as a plain string here, under $oid there): the placeholder is chosen
+	// by position, never by what the value was last seen as
+	for i := 0; i < len(items); i += 3 {
+		t2 := g.Reassign(items[i].Tree, gen.ReassignOpts{Mode: gen.CrossEqual})
+		items = append(items, Item{Case: items[i].Case, Tree: t2, Raw: t2.Bytes(jt.Plain)})
+	}
 	reps := []*string{nil, sp(""), sp(`q"uo'te`), sp(`back\slash\\`), sp("Ωmega ñ 漢"), sp("😀"), sp(strings.Repeat("R", 1024)), sp("$lead"), sp("line\nbreak\ttab"), sp("100%s %d%%")}
 	var fsets []Flags
 	for i, r := range reps {
